@@ -11,12 +11,20 @@
   as that very `Response` is C11's round trip; it enters here as the hypothesis `prev = some (.ok skr)`
   of each step and is checked on the real tools by the correspondence run (every transition uses
   the real previous output file).
+
+  That hypothesis is discharged at the end of the file (section "The emitted file"):
+  `emitted_is_loadable` — the file a successful ceremony writes is accepted by `load_skr` (size gate,
+  the repository's reader, `validate_response`) and yields the written response, as a Python object
+  (`ReadBack.SameResponse`; identical when the response is in the reader's list representation);
+  `C10_timeline_files` — the timeline theorem for histories in which every ceremony's previous SKR is
+  what `load_skr` makes of the file its predecessor wrote.
 -/
 import Kskm.Ceremony
 import KskmProofs.C03
 import KskmProofs.C08
 import KskmProofs.C09
 import KskmProofs.Lemmas.Echo
+import KskmProofs.Lemmas.C10Loadable
 namespace Kskm.C10
 
 open Kskm.C03
@@ -229,5 +237,304 @@ theorem declared_negative_min_gap_refused :
       { id := "s", serial := 1, domain := ".", zskPolicy := {}, kskPolicy := {},
         bundles := [{ id := "o1", inception := 864000000000, expiration := 2678400000000, keys := [], signatures := [] }] }
       {} = violation .chainOverlap := by decide +kernel
+
+/-! ## The emitted file
+
+  `C10_timeline` feeds the written `Response` back as the next previous SKR.  The tools feed back the
+  FILE: `skr_to_xml` of the response, read by the next ceremony with `load_skr`.  This section closes
+  that gap with C11's round trip (`C11.C11_roundtrip`, the composition of the writer theorem with C12's
+  reader theorem).
+
+  Hypotheses on the written SKR, explicit: `WriterDomain skr` and `C11.Constructible skr` — invariants
+  of what the signer emits from a plain KSR and a plain configuration (identifiers, domain and signer's
+  name free of markup characters, whole-second policy durations, years 1000…9999, RSA policies; the
+  pydantic invariants of `Key` / `Signature`), not proved of `create_skr` here — and the configuration
+  coherence `response_policy.num_bundles` = number of bundles written (the request policy's bundle count
+  is what `validate_request` enforced on the KSR). -/
+
+section EmittedFile
+open Kskm.ReadBack Kskm.C10L
+
+/-- a file system in which the written text is there to be read: within the size limit, and `read`
+    followed by `decode` returns its characters -/
+structure Holds (f : Xml.FileOracle) (text : String) : Prop where
+  size : f.statSize ≤ KskmGen.maxSkrSize
+  content : f.decode (f.read KskmGen.maxSkrSize) = some text.toList
+
+/-- **Every emitted SKR is loadable, and loads to the written response.**  For every token and every
+    ceremony: if the run writes `skr`, then `skr_to_xml skr` is a text which — once in a file — `load_skr`
+    under the same response policy accepts (size gate, reader, glue, `validate_response`), returning
+    `C11.normalise skr`: the written response up to the list representation of its `set` fields
+    (`SameResponse`), and the written response itself when that representation is canonical.
+    (On the pinned tree a one-bundle SKR did not load — F12; hence the third hypothesis, true of the
+    tree in /repo now by `emitted_is_loadable_current_tree`.) -/
+theorem emitted_is_loadable (ext : Externals) (args : CeremonyArgs) (t : Token) (s : CerState) (skr : Response)
+    (hs : writes s = []) (hw : writes (ksrsigner ext args t s).2 = [.write skr])
+    (hd : WriterDomain skr) (hc : C11.Constructible skr)
+    (hsw : KskmGen.wrapsSingleResponseBundle = true ∨ 2 ≤ skr.bundles.length)
+    (hcount : (skr.bundles.length : Int) = args.responsePolicy.numBundles) :
+    ∃ text, skrToXml skr = .ok text ∧
+      (∀ f : Xml.FileOracle, Holds f text →
+        (Xml.loadSkr Xml.pyClasses Xml.pySwitches Xml.pyGlueSwitches ext.verify f args.responsePolicy).result
+          = .done (.ok (C11.normalise skr))) ∧
+      loadSkrGate ext.verify (C11.normalise skr) args.responsePolicy = .ok () ∧
+      SameResponse (C11.normalise skr) skr ∧ (Canonical skr → C11.normalise skr = skr) := by
+  -- the gates the write implies: in particular `create_skr` returned `skr` against this very token
+  obtain ⟨_, skr', hwr, g⟩ := write_only_if_gates ext args t s hs (by rw [hw]; simp)
+  have hb : skr' = skr := by
+    rw [hw] at hwr
+    simp only [List.cons.injEq, Event.write.injEq, and_true] at hwr
+    exact hwr.symm
+  subst hb
+  obtain ⟨actions, req, mods, ts, ts', _, _, hcreate⟩ := g.signed
+  have hvalid := (createSkr_bundles_valid ext mods _ req skr' t ts ts' hcreate).2
+  have hresp : validateResponse ext.verify skr' args.responsePolicy = .ok () :=
+    (validateResponse_ok_iff _ _ _).mpr ⟨hcount, hvalid⟩
+  have hgate : loadSkrGate ext.verify (C11.normalise skr') args.responsePolicy = .ok () :=
+    loadSkrGate_of_valid _ _ _
+      (validateResponse_readBack _ _ _ _ (domain_parts skr' hd).sorted hresp)
+  -- C11: the text reads back
+  obtain ⟨text, h1, h2, h3, h4⟩ := C11.C11_roundtrip_switches Xml.pySwitches Xml.pyGlueSwitches skr' hd hc hsw
+  refine ⟨text, h1, ?_, hgate, h3, h4⟩
+  intro f hf
+  unfold Xml.loadSkr
+  rw [if_neg (by have := hf.size; omega)]
+  simp only [hf.content, h2]
+  have hg : loadSkrGate ext.verify (readBackWith Xml.pyGlueSwitches skr') args.responsePolicy = .ok () := hgate
+  rw [hg]
+  rfl
+
+/-- the tree in /repo now: no condition on the number of bundles -/
+theorem emitted_is_loadable_current_tree (ext : Externals) (args : CeremonyArgs) (t : Token) (s : CerState)
+    (skr : Response) (hs : writes s = []) (hw : writes (ksrsigner ext args t s).2 = [.write skr])
+    (hd : WriterDomain skr) (hc : C11.Constructible skr)
+    (hcount : (skr.bundles.length : Int) = args.responsePolicy.numBundles) :
+    ∃ text, skrToXml skr = .ok text ∧
+      (∀ f : Xml.FileOracle, Holds f text →
+        (Xml.loadSkr Xml.pyClasses Xml.pySwitches Xml.pyGlueSwitches ext.verify f args.responsePolicy).result
+          = .done (.ok (C11.normalise skr))) ∧
+      loadSkrGate ext.verify (C11.normalise skr) args.responsePolicy = .ok () ∧
+      SameResponse (C11.normalise skr) skr ∧ (Canonical skr → C11.normalise skr = skr) :=
+  emitted_is_loadable ext args t s skr hs hw hd hc (Or.inl (by decide)) hcount
+
+/-- the next ceremony's "load + validate previous SKR" stage accepts what the file yields -/
+theorem emitted_passes_stagePrev (ext : Externals) (args next : CeremonyArgs) (t : Token) (s : CerState)
+    (skr : Response) (hs : writes s = []) (hw : writes (ksrsigner ext args t s).2 = [.write skr])
+    (hd : WriterDomain skr) (hc : C11.Constructible skr)
+    (hcount : (skr.bundles.length : Int) = args.responsePolicy.numBundles)
+    (hpol : next.responsePolicy = args.responsePolicy) (hprev : next.prev = some (.ok (C11.normalise skr))) :
+    stagePrev ext next = .ok (some (C11.normalise skr)) := by
+  obtain ⟨_, _, _, hgate, _, _⟩ := emitted_is_loadable_current_tree ext args t s skr hs hw hd hc hcount
+  unfold stagePrev
+  rw [hprev]
+  simp only [bind, Except.bind, hpol, hgate, pure, Except.pure]
+
+/-- **The neighbour relation does not see the list representation** of the earlier SKR: it transfers
+    along `SameResponse`. -/
+theorem neighbour_of_same {a' a : Response} {req : Request} {b : Response} (hsame : SameResponse a' a)
+    (h : Neighbour a' req b) : Neighbour a req b := by
+  obtain ⟨⟨aLast', reqFirst, bFirst, h1, h2, h3, h4⟩, hgap, hid, hbid, hz, hp⟩ := h
+  have hlast : ∃ aLast, a.bundles.getLast? = some aLast := by
+    cases hl : a.bundles.getLast? with
+    | some x => exact ⟨x, rfl⟩
+    | none =>
+      have hnil : a.bundles = [] := List.getLast?_eq_none_iff.mp hl
+      have hlen : a'.bundles.length = 0 := by rw [hsame.length, hnil]; rfl
+      rw [List.eq_nil_of_length_eq_zero hlen] at h1
+      simp at h1
+  obtain ⟨aLast, haL⟩ := hlast
+  refine ⟨⟨aLast, reqFirst, bFirst, haL, h2, h3, h4⟩, ?_, ?_, ?_, ?_, ?_⟩
+  · intro x y hx hy
+    obtain ⟨x', hx', _, _, e3, _⟩ := same_last hsame x hx
+    rw [← e3]
+    exact hgap x' y hx' hy
+  · rw [← hsame.id]; exact hid
+  · intro bb hbb ab hab
+    obtain ⟨ab', hab', e⟩ := same_mem hsame ab hab
+    rw [← e]
+    exact hbid bb hbb ab' hab'
+  · intro x rf hx hrf k hk
+    obtain ⟨x', hx', _, _, _, e4⟩ := same_last hsame x hx
+    exact (e4 k).mp (hz x' rf hx' hrf k hk)
+  · intro x y hx hy σ hσ
+    obtain ⟨x', hx', _, _, _, e4⟩ := same_last hsame x hx
+    obtain ⟨k, hk, hkid⟩ := hp x' y hx' hy σ hσ
+    exact ⟨k, (e4 k).mp hk, hkid⟩
+
+/-- Run a history THROUGH THE FILES: each ceremony's previous SKR is what `load_skr` makes of the file
+    the last successful ceremony wrote (`C11.normalise` of the written response — `emitted_is_loadable`);
+    returns the accepted (request, written SKR) pairs in order. -/
+def historyFiles : Option Response → List Ceremony → List (Request × Response)
+  | _, [] => []
+  | prev, c :: rest =>
+    match written c prev, c.args.ksr with
+    | some skr, some (.ok req) => (req, skr) :: historyFiles (some (C11.normalise skr)) rest
+    | _, _ => historyFiles prev rest
+
+/-- every SKR a ceremony of the history can write lies in the writer's domain -/
+def AllInDomain (cs : List Ceremony) : Prop :=
+  ∀ c ∈ cs, ∀ prev skr, written c prev = some skr → WriterDomain skr
+
+theorem timeline_files_aux (cs : List Ceremony) (hpol : AllTimeline cs) (hdom : AllInDomain cs) :
+    ∀ (a a' : Response), SameResponse a' a → Chained a (historyFiles (some a') cs) := by
+  induction cs with
+  | nil => intro a a' _; simp [historyFiles, Chained]
+  | cons c rest ih =>
+    have hrest : AllTimeline rest := fun c' hc' => hpol c' (List.mem_cons_of_mem _ hc')
+    have hdrest : AllInDomain rest := fun c' hc' => hdom c' (List.mem_cons_of_mem _ hc')
+    intro a a' hsame
+    unfold historyFiles
+    cases hw : written c (some a') with
+    | none => simp only; exact ih hrest hdrest a a' hsame
+    | some skr =>
+      cases hk : c.args.ksr with
+      | none => simp only; exact ih hrest hdrest a a' hsame
+      | some r =>
+        cases r with
+        | error e => simp only; exact ih hrest hdrest a a' hsame
+        | ok req =>
+          simp only [Chained]
+          have hd : WriterDomain skr := hdom c List.mem_cons_self (some a') skr hw
+          refine ⟨?_, ih hrest hdrest skr (C11.normalise skr) (readBack_same _ skr hd)⟩
+          apply neighbour_of_same hsame
+          unfold written at hw
+          simp only at hw
+          have hwr : writes (ksrsigner c.ext { c.args with prev := some (.ok a') } c.tok {}).2 = [.write skr] := by
+            simp only [Option.map] at hw
+            split at hw
+            · rename_i s heq
+              simp only [Option.some.injEq] at hw
+              subst hw; exact heq
+            · simp at hw
+          exact step_neighbour c.ext { c.args with prev := some (.ok a') } c.tok {} a' req skr rfl hk
+            (hpol c (List.mem_cons_self) req hk) rfl hwr
+
+/-- **C10 through the files.**  For EVERY sequence of ceremonies in which each one reads, as its
+    previous SKR, the file the last successful one wrote: the SKRs written along the way form a chain of
+    neighbours — the same conclusion as `C10_timeline`, with the model's "feed the written `Response`
+    back" replaced by "write the text, read it with the repository's reader". -/
+theorem C10_timeline_files (cs : List Ceremony) (a : Response) (hpol : AllTimeline cs) (hdom : AllInDomain cs) :
+    Chained a (historyFiles (some a) cs) :=
+  timeline_files_aux cs hpol hdom a a (SameResponse.refl a)
+
+/-- when every written SKR is already in the reader's representation, the two histories coincide -/
+theorem historyFiles_eq_history (cs : List Ceremony) (hdom : AllInDomain cs)
+    (hcan : ∀ c ∈ cs, ∀ prev skr, written c prev = some skr → Canonical skr) :
+    ∀ prev, historyFiles prev cs = history prev cs := by
+  induction cs with
+  | nil => intro prev; rfl
+  | cons c rest ih =>
+    have ih' := ih (fun c' hc' => hdom c' (List.mem_cons_of_mem _ hc'))
+      (fun c' hc' => hcan c' (List.mem_cons_of_mem _ hc'))
+    intro prev
+    unfold historyFiles history
+    cases hw : written c prev with
+    | none => simp only; exact ih' prev
+    | some skr =>
+      cases hk : c.args.ksr with
+      | none => simp only; exact ih' prev
+      | some r =>
+        cases r with
+        | error e => simp only; exact ih' prev
+        | ok req =>
+          simp only
+          have hd := hdom c List.mem_cons_self prev skr hw
+          have hc := hcan c List.mem_cons_self prev skr hw
+          have : C11.normalise skr = skr := readBack_eq_self _ skr hd hc
+          rw [this, ih' (some skr)]
+
+end EmittedFile
+
+/-! ## Non-vacuity of the section above: a concrete ceremony -/
+
+section Example
+open Kskm.ReadBack Kskm.C10L
+
+/-- a token with one slot and one RSA key pair labelled "ksk" (handle 5, modulus `80 01`, e = 65537)
+    that answers every other question with "ok" and signs everything with `[1, 2, 3]` -/
+def exTok : Token := fun _ op =>
+  match op with
+  | .getSlotList _ => .slots [0]
+  | .findObjects _ _ _ => .handles [5]
+  | .getAttr _ _ _ ["KEY_TYPE"] => .attrs [.num 0]
+  | .getAttr _ _ _ ["MODULUS"] => .attrs [.bytes [0x80, 1]]
+  | .getAttr _ _ _ ["PUBLIC_EXPONENT"] => .attrs [.bytes [1, 0, 1]]
+  | .sign .. => .sig [1, 2, 3]
+  | _ => .ok
+
+/-- … and a verifier that accepts exactly that -/
+def exExt : Externals :=
+  { hash := fun _ d => some d, verify := fun _ _ _ sg => if sg = [1, 2, 3] then .valid else .invalid }
+
+def exReq : Request :=
+  { id := "req-1", serial := 1, domain := ".",
+    zskPolicy := { maxSignatureValidity := 1814400000000, minSignatureValidity := 1814400000000,
+                   maxValidityOverlap := 3600000000, minValidityOverlap := 61000000,
+                   algorithms := [{ kind := .rsa, bits := 2048, algorithm := 8, exponent := some 65537 }] },
+    bundles := [⟨"b1", 1700000000000000, 1701000000000000, [⟨"zsk", 2, 172800, 256, 3, 8, "AwEAAg=="⟩], [], none⟩] }
+
+/-- one bundle; the optional KSR checks switched off (the KSR carries no proof of possession) -/
+def exArgs : CeremonyArgs :=
+  { actions := some [(1, { publish := ["k1"], sign := ["k1"] })]
+    prev := none
+    ksr := some (.ok exReq)
+    hsm := [{ label := "hsm", path := "m", pin := some "1234", soPin := none }]
+    force := true
+    kskKeys := [("k1", { label := "ksk", algorithm := 8, validFrom := 0, rsaSize := some 16,
+                         rsaExponent := some 65537, hashUsingHsm := some true })]
+    kskPolicy := {}
+    requestPolicy :=
+      { numBundles := 1, validateSignatures := false, keysMatchZskPolicy := false, checkCycleLength := false,
+        checkBundleOverlap := false, signatureAlgorithmsMatchZskPolicy := false,
+        signatureValidityMatchZskPolicy := false, checkKeysMatchKskOperatorPolicy := false,
+        signatureCheckExpireHorizon := false, checkBundleIntervals := false }
+    responsePolicy := { numBundles := 1 }
+    now := 1700000000000000 }
+
+def exCeremony : Ceremony := { ext := exExt, args := exArgs, tok := exTok }
+
+/-- the whole pipeline runs (schema, KSR gate, token initialisation, signing, re-validation, the
+    write) and the SKR it writes meets every hypothesis of `emitted_is_loadable`; its two keys stand
+    in the signer's order (KSK 34572 before ZSK 2), NOT in the key-tag order the file has — so the
+    response read back differs from the written one as a list-carrying record and `SameResponse` is
+    the statement that applies -/
+theorem exCeremony_writes :
+    (match written exCeremony none with
+      | some skr => writerDomain skr && constructible skr
+          && decide ((skr.bundles.length : Int) = exArgs.responsePolicy.numBundles)
+          && decide (skr.bundles.map (fun b => b.keys.map (·.keyTag)) = [[34572, 2]])
+      | none => false) = true := by decide +kernel
+
+/-- `emitted_is_loadable` applied to that run: the file loads, to the same response -/
+example : ∃ skr text, written exCeremony none = some skr ∧ skrToXml skr = .ok text ∧
+    (∀ f : Xml.FileOracle, Holds f text →
+      (Xml.loadSkr Xml.pyClasses Xml.pySwitches Xml.pyGlueSwitches exExt.verify f exArgs.responsePolicy).result
+        = .done (.ok (C11.normalise skr))) ∧
+    SameResponse (C11.normalise skr) skr := by
+  have h := exCeremony_writes
+  cases hw : written exCeremony none with
+  | none => rw [hw] at h; cases h
+  | some skr =>
+    rw [hw] at h
+    simp only [Bool.and_eq_true, decide_eq_true_eq] at h
+    obtain ⟨⟨⟨hd, hc⟩, hcount⟩, _⟩ := h
+    have hwr : writes (ksrsigner exExt exArgs exTok {}).2 = [.write skr] := by
+      unfold written at hw
+      simp only [Option.map] at hw
+      split at hw
+      · rename_i s heq
+        simp only [Option.some.injEq] at hw
+        subst hw; exact heq
+      · simp at hw
+    obtain ⟨text, h1, h2, _, h4, _⟩ :=
+      emitted_is_loadable_current_tree exExt exArgs exTok {} skr rfl hwr hd hc hcount
+    exact ⟨skr, text, rfl, h1, h2, h4⟩
+
+/-- a file system that holds a given text -/
+example (text : String) (h : text.toList.length ≤ KskmGen.maxSkrSize) :
+    Holds { statSize := text.toList.length, read := fun _ => [], decode := fun _ => some text.toList } text :=
+  ⟨h, rfl⟩
+
+end Example
 
 end Kskm.C10
